@@ -196,7 +196,7 @@ pub fn c12(c: &mut Ctx) {
         let tables: Vec<Vec<u64>> = if n <= 2 || (n == 3 && c.thorough) {
             all_tables(n)
         } else {
-            (0..12).map(|i| gen_table(&mut c.rng, n, crate::KINDS[i % 6])).collect()
+            (0..12).map(|i| gen_table(&mut c.rng, n, crate::KINDS[i % crate::KINDS.len()])).collect()
         };
         for t in tables.iter() {
             let l = Lut::from_blocks(n, t);
@@ -315,7 +315,7 @@ pub fn c13(c: &mut Ctx) {
     }
     for n in 0..=3usize {
         let es = all_ecubes(n);
-        let tables: Vec<Vec<u64>> = if n <= 2 { all_tables(n) } else { (0..12).map(|i| gen_table(&mut c.rng, n, crate::KINDS[i % 6])).collect() };
+        let tables: Vec<Vec<u64>> = if n <= 2 { all_tables(n) } else { (0..12).map(|i| gen_table(&mut c.rng, n, crate::KINDS[i % crate::KINDS.len()])).collect() };
         for t in tables.iter() {
             let l = Lut::from_blocks(n, t);
             for x in es.iter() {
@@ -576,7 +576,7 @@ pub fn c15(c: &mut Ctx) {
             (_, true) => 3,
         };
         for k in 0..reps {
-            let l = Lut::from_blocks(n, &gen_table(&mut c.rng, n, crate::KINDS[k % 6]));
+            let l = Lut::from_blocks(n, &gen_table(&mut c.rng, n, crate::KINDS[k % crate::KINDS.len()]));
             let r = call(|| Esop::from(&l));
             c.emit("x.from_lut", "-", &[fl(&l)], r.as_ref().map(fesop));
             if k == 0 {
